@@ -5,8 +5,8 @@ import py_checks
 import runner_props
 
 PROP = "C15"
-LEAN_MODULES = ["PamsProps.C15"]
-NAMESPACES = ["Pams.C15"]
+LEAN_MODULES = ["PamsProps.C15", "PamsProps.SrcHookReg"]
+NAMESPACES = ["Pams.C15", "Pams.C15"]
 DRIVERS = ["Events", "Runner", "PyRun"]
 TRUSTED = [
     "arithmetic theorems are over ordered fields; the same Lean definitions are evaluated at Float and compared with Python bit-for-bit (tolerance 1e-12 only where noted)",
